@@ -324,6 +324,8 @@ def run(rep: vlib.Reporter, tier: str, seed: int) -> None:
                     "fragment), 45% merge-free multi-framework DAGs. Each prepared 3x in-process and under several hash seeds; "
                     "accepted plans checked by wf_plan_auto and run in SYNC and THREADING under a watchdog. non-trivial = accepted")
     rep.sample({"spec": specs[0], "outcome": {k: v for k, v in outs[0][0].items() if k in ("accepted", "exc", "msg")}})
+    from harness import srctie      # source-text tie (Props/SrcTie.v): definitions regenerated from the source text = the models
+    found = (not srctie.check(rep)) or found
     if not pr.ok and not found:
         rep.finding("proof-broken", "Props/C04.v no longer checks",
                     {"failed_files": pr.failed_files, "forbidden": pr.forbidden, "log_tail": pr.log[-3000:]}, found_input=False)
@@ -331,6 +333,10 @@ def run(rep: vlib.Reporter, tier: str, seed: int) -> None:
 
 def replay(path: str) -> int:
     r = json.load(open(path))["replay"]
+    if r.get("kind") == "srctie":
+        from harness import srctie
+        srctie.replay(r, show=True)
+        return 0
     install()
     o = [outcome(r["spec"]) for _ in range(3)]
     print("in-process outcomes:", [(x["accepted"], x.get("exc"), rule_of(x.get("msg", ""))) for x in o],
